@@ -24,7 +24,7 @@ use crate::nix_ffi;
 
 use crate::{
     cache::InputFormat,
-    closurize::Closurize,
+    closurize::{Closurize, closurize_data},
     combine::Combine,
     error::{EvalErrorKind, IllegalPolymorphicTailAction, Warning},
     identifier::LocIdent,
@@ -2710,7 +2710,7 @@ impl<'ctxt, R: ImportResolver, C: Cache> VirtualMachine<'ctxt, R, C> {
                 };
 
                 let deser: NickelValue = match enum_data.tag.label() {
-                    "Json" => serde_json::from_str(s).map_err(|err| {
+                    "Json" => serde_json::from_str(s).map(closurize_data).map_err(|err| {
                         Box::new(EvalErrorKind::DeserializationError(
                             String::from("json"),
                             format!("{err}"),
@@ -2747,7 +2747,7 @@ impl<'ctxt, R: ImportResolver, C: Cache> VirtualMachine<'ctxt, R, C> {
                             })
                         })?
                     }
-                    "Toml" => toml::from_str(s).map_err(|err| {
+                    "Toml" => toml::from_str(s).map(closurize_data).map_err(|err| {
                         Box::new(EvalErrorKind::DeserializationError(
                             String::from("toml"),
                             format!("{err}"),
